@@ -3,7 +3,7 @@
 One helper call WITHOUT _inplace on a template instance built from symbolic leaves; arguments conforming and
 non-conforming, callbacks that raise or return ill-typed values, missing indices/keys, unknown keywords; deep identity +
 content snapshots of receiver and arguments before/after, whether the call returns or raises."""
-from vf.specops import K2_OPS, K2_SET_OPS, K3_OPS, K4_OPS, K5_OPS
+from vf.specops import K2_OPS, K2_SET_OPS, K3_FAIL_OPS, K3_OPS, K4_PREP_OPS, K4_OPS, K5_OPS
 from vf.stepcheck import K1_MATRIX, make, warm
 from vf.sym import Ob
 
@@ -35,6 +35,13 @@ def matrix(tier):
             continue
         for attr in ("inner", "inner2"):
             out.append(("K3", opname, attr, True))
+    for opname in K3_FAIL_OPS:
+        for attr in ("inner", "inner2"):
+            out.append(("K3", opname, attr, True))
+    for opname in K4_PREP_OPS:
+        if PROP == "C01" and (opname.startswith("setattr") or opname.startswith("del")):
+            continue
+        out.append(("K4", opname, None, True))
     for opname in K4_OPS:
         if PROP == "C01" and opname.startswith("setattr"):
             continue
